@@ -38,6 +38,8 @@ def project_stage(ctx):
     if wit.violated != "AgreeEverywhere":
         raise vlib.ToolError("MC_Project_witness: AgreeEverywhere is no longer violated - the model lost the difference between "
                              "the path as typed and the path relative to the project")
+    # for ANY layout: inside C15's slice the path as walked is the path relative to the project (TLAPS, 52 obligations)
+    vlib.run_tlapm(ctx, "proofs/ProjectProofs.tla", timeout=900, threads=4)
     vec = ctx.path("project-vectors.ndjson")
     vlib.write_ndjson(vec, mc.vec)
     rec = ctx.path("project-records.ndjson")
